@@ -121,6 +121,17 @@ func c06Gen(tier string, seed int64) []core.Case {
 				id := fmt.Sprintf("W1/small/%s/%s", sc.proto, f.String())
 				cs = append(cs, core.Case{ID: id, Class: id, Kind: "w1", P: f.P(sc.P()), Cost: sc.cost})
 			}
+			if fi.Repeated {
+				// undecodable lists with the parties configured for a single verification slot (SetConcurrency(1)): a slot
+				// that is not given back on an error path blocks the next verification
+				for _, how := range []string{"list-short", "list-empty"} {
+					f := faultSpec{fi.Type, fi.Field, "", how, []string{"low", "high"}[(k+fiI)%2], false, ""}
+					p := f.P(sc.P())
+					p["conc"] = 1
+					id := fmt.Sprintf("W1/small/concurrency=1/%s/%s", sc.proto, f.String())
+					cs = append(cs, core.Case{ID: id, Class: id, Kind: "w1", P: p, Cost: sc.cost})
+				}
+			}
 		}
 	}
 	// one bad point-to-point message to ONE recipient, ordinary traffic afterwards: the victim reports an error in the
@@ -236,6 +247,11 @@ func c06Run(c core.Case, env *core.Env) core.Result {
 	if err != nil {
 		r.Inconcl("session setup failed: %v", err)
 		return r
+	}
+	if v := c.P.Int("conc"); v > 0 {
+		prev := sim.Concurrency
+		sim.Concurrency = v
+		defer func() { sim.Concurrency = prev }()
 	}
 	switch c.Kind {
 	case "w1":
